@@ -593,7 +593,7 @@ impl Router {
 
         for packet in packets.drain(0..) {
             match packet {
-                Packet::Publish(publish, properties) => {
+                Packet::Publish(mut publish, mut properties) => {
                     let span = tracing::error_span!("publish", topic = ?publish.topic, pkid = publish.pkid);
                     let _guard = span.enter();
 
@@ -626,6 +626,28 @@ impl Router {
                             force_ack = true;
                         }
                         QoS::ExactlyOnce => {
+                            // a topic alias is bound and resolved when the PUBLISH arrives. The
+                            // publish is appended only when it is released, and by then the
+                            // publisher may have bound the alias to another topic (or used it
+                            // in later publishes that rely on this binding)
+                            let alias = properties.as_mut().and_then(|p| p.topic_alias.take());
+                            if let Some(alias) = alias {
+                                let connection = self.connections.get_mut(id).unwrap();
+                                if let Err(e) =
+                                    validate_and_set_topic_alias(&mut publish, connection, alias)
+                                {
+                                    error!(reason = ?e, "Bad topic alias in a QoS 2 publish");
+                                    self.router_meters.failed_publishes += 1;
+                                    disconnect = true;
+
+                                    if let RouterError::Disconnect(code) = e {
+                                        disconnect_reason = Some(code)
+                                    }
+
+                                    break;
+                                }
+                            }
+
                             let pubrec = PubRec {
                                 pkid,
                                 reason: PubRecReason::Success,
